@@ -10,11 +10,13 @@ from ..util.asjson import AsJSONMixin, asjson
 from ..util.debugging import ERROR_print
 from ..util.fromjson import JSONBase, fromjson
 from ..util.misc import hash2str, new_id
-from ..util.tty import tty_escape, tty_unescape
 from .compact import compact_value, decompact_value
 
 
 HASH_PATTERN = r'^\{"hash":"([\w\d]+)","data":(.*?)\}$'
+
+# one JSON escape sequence: a backslash and what it escapes
+JSON_ESCAPE_RE = re.compile(r'\\(u[0-9a-fA-F]{4}|.)', re.DOTALL)
 
 
 class PacketError(Exception):
@@ -116,6 +118,22 @@ def unpack(hashed: str) -> PacketLike:
         raise
     except Exception as e:
         raise CannotUnPacketError(e) from e
+
+
+def tty_escape(s: str) -> str:
+    # NOTE works on JSON text, one escape sequence at a time, so the "e" or
+    #   "x1b" that follows an escaped backslash ("\\\\e") is never touched
+    def escape(m: re.Match) -> str:
+        return '\\e' if m.group(1).lower() == 'u001b' else m.group(0)
+
+    return JSON_ESCAPE_RE.sub(escape, s)
+
+
+def tty_unescape(s: str) -> str:
+    def unescape(m: re.Match) -> str:
+        return '\\u001b' if m.group(1) == 'e' else m.group(0)
+
+    return JSON_ESCAPE_RE.sub(unescape, s)
 
 
 def class_escape(s: str) -> str:
